@@ -160,6 +160,16 @@ func init() {
 	intrinsics["math.Pow"] = func(in *Interp, fn *ssa.Function, a []Value) Value {
 		return Float{V: math.Pow(a[0].(Float).V, a[1].(Float).V)}
 	}
+	intrinsics["(*sync/atomic.Value).Store"] = func(in *Interp, fn *ssa.Function, a []Value) Value {
+		if v, ok := a[1].(Iface); ok && v.T == nil {
+			in.raise("explicit", in.newOpaqueErr("sync/atomic: store of nil value into Value"))
+		}
+		in.store(a[0].(Ptr).Extend(Sel{Field: 0}), a[1])
+		return nil
+	}
+	intrinsics["(*sync/atomic.Value).Load"] = func(in *Interp, fn *ssa.Function, a []Value) Value {
+		return in.load(a[0].(Ptr).Extend(Sel{Field: 0}))
+	}
 	intrinsics["sort.Slice"] = sortSlice
 	intrinsics["sort.SliceStable"] = sortSlice
 }
@@ -498,37 +508,5 @@ func (in *Interp) callerSite() string {
 	return in.frames[len(in.frames)-1].fn.Name()
 }
 
-// ---- package initialisation
-
-// initGlobal gives selected globals their initial value lazily (after allocation).
-func (in *Interp) initGlobal(g *ssa.Global, id int) {
-	// Values of a few well-known tables that code indexes directly.
-	_ = strings.HasPrefix
-}
-
-// runInit executes a package's SSA init function; unknown calls yield zero values.
-func (in *Interp) runInit(pkgPath string) {
-	for _, p := range in.Prog.AllPackages() {
-		if p.Pkg.Path() == pkgPath {
-			p.Build()
-			initFn := p.Func("init")
-			if initFn == nil {
-				return
-			}
-			in.lenient++
-			defer func() { in.lenient-- }()
-			// skip the dependency-init prologue: execute only this package's own initialisers
-			in.callInitBody(initFn)
-			return
-		}
-	}
-	in.unsupported("init package %s not found", pkgPath)
-}
-
-func (in *Interp) callInitBody(fn *ssa.Function) {
-	// The init function starts with "if initdone goto done", sets initdone, calls dependency
-	// inits, then runs the initialisers. Dependency init calls are skipped in lenient mode.
-	in.call(fn, nil, nil, "init")
-}
-
 var _ = big.NewInt
+var _ = strings.HasPrefix
